@@ -12,6 +12,7 @@ dictionaries are canonicalised by sorting on the qubit index.  The independent o
 matrices directly from the property text: sum over terms of coefficient * kron over qubits 0..n-1 (qubit 0
 the leftmost factor) of the 2x2 matrices, tolerance 1e-9.
 """
+import json
 from fractions import Fraction
 import numpy as np
 from hlib import *
@@ -29,7 +30,11 @@ H = Harness("C09", ["OQ.Base.Ring", "OQ.Base.CaseEq", "OQ.Pauli.Algebra", "OQ.Pa
             "isherm (simplified / unsimplified / real-coefficient operands), reverse (n given or default, too small), "
             "expect (dyadic unit states with amplitudes of modulus 2^-k/2, both values of reverse_operator), frommat "
             "(random dense dyadic complex matrices, sparse ones, matrices of random operators; 2x2, 4x4, 8x8; as lists of rows or numpy arrays; "
-            "non-square and non-power-of-two rows -> error), width; the NUMERIC TYPE is a generator dimension recorded in the "
+            "non-square and non-power-of-two rows -> error), width; a FIXED BLOCK (112 cases, every tier, seed-independent): "
+            "sums of 1-4 terms with a unique term whose coefficient has non-zero imaginary part, simplified / unsimplified, with / "
+            "without a conjugate partner, under is_hermitian, hermitian_conjugated, sparse, reverse, expectation; every object "
+            "handed to the implementation is snapshotted before and after the call and must be unchanged; the hconj / isherm "
+            "streams draw complex-heavy coefficient mixes (cplx = non-zero imaginary part in every term); the NUMERIC TYPE is a generator dimension recorded in the "
             "kind label: coefficients all Python int / int+float / int+complex-with-zero-imaginary / mixed / one numpy type "
             "per operand (int64 int32 int8 uint8 float64 float32 complex128 complex64), matrices as lists of int / float / "
             "mixed rows or numpy arrays of those dtypes, states as lists or arrays of int / float / complex dtype; non-trivial = two or more acted qubits, two or "
@@ -162,6 +167,7 @@ CT = {
     "allint":    ["int"],
     "int+float": ["int", "int", "float"],
     "int+cplx0": ["int", "int", "complex0"],
+    "cplx":      ["cplxnz"],                # Python complex with non-zero imaginary part in every term
     "npint":     None,                      # one numpy integer type for the whole operand (chosen per operand)
     "npfloat":   None,                      # np.float64 or np.float32
     "npcomplex": None,                      # np.complex128 or np.complex64
@@ -169,9 +175,13 @@ CT = {
 CT_REAL = ["mixed", "allint", "allint", "int+float", "npint", "npfloat"]
 CT_ALL = ["mixed", "mixed", "mixed", "allint", "allint", "int+float", "int+cplx0", "npint", "npint", "npfloat", "npcomplex"]
 
-def g_ct(rng, real=False):
+CT_CPLX = ["cplx", "cplx", "cplx", "mixed", "npcomplex", "int+cplx"]     # complex-heavy mixes for the hconj / isherm streams
+
+def g_ct(rng, real=False, cplx=False):
     """(label, list of type names)"""
-    ct = rng.choice(CT_REAL if real else CT_ALL)
+    ct = rng.choice(CT_REAL if real else CT_CPLX if cplx else CT_ALL)
+    if ct == "int+cplx":
+        return ct, ["int", "float", "cplxnz", "cplxnz"]
     if ct == "npint":
         return ct, [rng.choice(["npint64", "npint64", "npint32", "npint8", "npuint8"])]
     if ct == "npfloat":
@@ -191,6 +201,8 @@ def g_coef(rng, zero_p=0.06, tys=None):
             k = rng.randint(1 if unsigned else -24, 24)
             if k:
                 return k
+    if ty == "cplxnz":                         # a Python complex with non-zero imaginary part
+        return [rng.choice([0, nz(), nz()]), nz(), rng.randint(0, 3), "complex"]
     if ty == "complex0":                       # a Python complex with zero imaginary part
         return [nz(), 0, rng.randint(0, 3), "complex"] if rng.random() >= zero_p else [0, 0, 0, "complex"]
     if rng.random() < zero_p:
@@ -237,9 +249,9 @@ def g_sum(rng, maxq, tys=None):
             terms.append(g_term(rng, maxq, tys=tys))
     return dict(k="S", terms=terms)
 
-def g_operand(rng, maxq, real=False):
+def g_operand(rng, maxq, real=False, cplx=False):
     """an operand and the label of the numeric-type mix of its coefficients"""
-    ct, tys = g_ct(rng, real)
+    ct, tys = g_ct(rng, real, cplx)
     o = g_term(rng, maxq, tys=tys) if rng.random() < 0.35 else g_sum(rng, maxq, tys=tys)
     o["ct"] = ct if ct not in ("npint", "npfloat", "npcomplex") else tys[0]
     return o
@@ -329,8 +341,56 @@ def mk_matrix(rows, mt):
     dt = getattr(np, mt[3:])
     return np.array(vals if "complex" in mt else [[z.real for z in r] for r in vals]).astype(dt)
 
+def fixed_block():
+    """Cases that run in every tier and do not depend on the seed: PauliSums of 1-4 terms containing a term U with a
+    unique operator set and a coefficient with non-zero imaginary part - simplified and unsimplified, with and without
+    a partner carrying the conjugate coefficient - under is_hermitian and hermitian_conjugated (verdict against the
+    matrix, result against the conjugate transpose, argument unchanged), and the same operands under the other
+    operations."""
+    import random
+    r = random.Random(20261001)
+    strings = [[[0, "X"]], [[1, "Y"]], [[0, "Y"], [2, "Z"]], [[3, "X"], [1, "Z"]], [[2, "Y"], [0, "X"], [3, "Y"]], [], [[1, "X"], [2, "X"]]]
+    ucoefs = [[1, 2, 0, "complex"], [0, 3, 1, "complex"], [-5, -1, 2, "complex"], [3, -7, 0, "npcomplex128"], [0, -1, 0, "complex"]]
+    out = []
+    for nterms in (1, 2, 3, 4):
+        for simp in (True, False):
+            for partner in (False, True):
+                for v in range(2):
+                    ss = list(strings)
+                    r.shuffle(ss)
+                    uc = ucoefs[(nterms + 2 * v + simp + 3 * partner) % len(ucoefs)]
+                    terms = [dict(k="T", c=list(uc), ops=ss[0])]
+                    if partner and nterms >= 2:
+                        pops = ss[0] if not simp else ss[1]          # unsimplified: same operator set (the sum of the pair is Hermitian)
+                        terms.append(dict(k="T", c=[uc[0], -uc[1], uc[2], uc[3]], ops=list(pops)))
+                    k = 2
+                    while len(terms) < nterms:
+                        if not simp and len(terms) == nterms - 1 and nterms >= 3 and len(terms) >= 2 and not partner:
+                            terms.append(dict(k="T", c=[r.randint(1, 9), 0, 0, "int"], ops=list(terms[-1]["ops"])))   # a repeated real term
+                        else:
+                            terms.append(dict(k="T", c=[r.choice([-3, 2, 5, 7]), 0, r.randint(0, 1), r.choice(["int", "float"]) if False else "float"], ops=ss[k]))
+                            k += 1
+                    if not simp and nterms == 1:
+                        terms[0]["c"] = [0, 0, 0, "complex"] if v else terms[0]["c"]       # a zero coefficient is not simplified either
+                    if not simp and nterms == 2 and not partner:
+                        terms[1]["ops"] = list(terms[1]["ops"])
+                        terms.append(dict(k="T", c=[0, 0, 0, "float"], ops=ss[k]))          # unsimplified through a zero term
+                    r.shuffle(terms)
+                    op = dict(k="S", terms=terms, ct="fixed")
+                    out.append(dict(kind="isherm", op=op, simplify=False, fixed=True))
+                    out.append(dict(kind="hconj", op=op, fixed=True))
+                    if v == 0:
+                        w = width(op)
+                        out.append(dict(kind="sparse", op=op, n=w, fixed=True))
+                        out.append(dict(kind="reverse", op=op, n=w, fixed=True))
+                        if w >= 1:
+                            out.append(dict(kind="expect", op=op, n=w, amps=g_state(r, w), st="list-complex", rev=bool(nterms % 2), fixed=True))
+    return out
+
 def gen(rng, tier):
     quick = tier == "quick"
+    for c in fixed_block():
+        yield c
     N = 420 if quick else 6000
     maxq = 4 if quick else 5
     yield dict(kind="sparse", op=dict(k="S", terms=[]), n=2)
@@ -348,11 +408,11 @@ def gen(rng, tier):
                 n = min(w + rng.choice([0, 0, 1, 2]), maxq)
             yield dict(kind="sparse", op=op, n=n)
         elif r < 0.42:
-            op = g_operand(rng, maxq) if rng.random() < 0.9 else dict(k="N", c=g_coef(rng))
+            op = g_operand(rng, maxq, cplx=rng.random() < 0.6) if rng.random() < 0.9 else dict(k="N", c=g_coef(rng))
             yield dict(kind="hconj", op=op)
         elif r < 0.54:
-            real = rng.random() < 0.6
-            op = g_operand(rng, maxq, real=real)
+            real = rng.random() < 0.35
+            op = g_operand(rng, maxq, real=real, cplx=not real and rng.random() < 0.75)
             yield dict(kind="isherm", op=op, simplify=rng.random() < 0.5)
         elif r < 0.66:
             op = g_operand(rng, rng.randint(1, maxq))
@@ -381,8 +441,34 @@ def gen(rng, tier):
 
 # ----------------------------------------------------------------------------- cases
 
+# every object handed to the implementation is registered with arg(); run_case compares a snapshot taken before the
+# call with one taken after it: no operation of the property may modify its argument
+_ARGS = []
+
+def snapshot(x):
+    if isinstance(x, (PauliTerm, PauliSum)):
+        return json.dumps(from_py(x), sort_keys=True)
+    if isinstance(x, Wavefunction):
+        return repr((str(x.amplitudes.dtype), x.amplitudes.tolist()))
+    if isinstance(x, np.ndarray):
+        return repr((str(x.dtype), x.tolist()))
+    return repr(x)
+
+def arg(x):
+    _ARGS.append((x, snapshot(x)))
+    return x
+
 def run_case(inp):
+    del _ARGS[:]
     r = run_case_(inp)
+    for x, before in _ARGS:
+        after = snapshot(x)
+        if after != before:
+            r["oracle_ok"] = False
+            r["sig"] = None
+            r["oracle_msg"] = (f"{inp['kind']}: the call modified its argument: before {before[:300]} after {after[:300]}; "
+                               + r.get("oracle_msg", ""))
+            break
     r["oracle_ok"] = bool(r["oracle_ok"])          # numpy booleans would be serialised as strings
     r["nontrivial"] = bool(r.get("nontrivial", True))
     return r
@@ -396,7 +482,8 @@ def run_case_(inp):
     ct = "-" + o.get("ct", "mixed")                    # numeric-type mix of the coefficients, part of the kind label
     if kind == "sparse":
         n = inp["n"]
-        st, out = outcome(lambda: get_sparse_operator(to_py(o), n).toarray(), timeout=30)
+        pyop = arg(to_py(o))
+        st, out = outcome(lambda: get_sparse_operator(pyop, n).toarray(), timeout=30)
         w = width(o)
         pyw = to_py(o).n_qubits
         if st == "ok":
@@ -413,7 +500,8 @@ def run_case_(inp):
                     oracle_ok=ok, oracle_msg=msg, kind=kind + ("" if st == "ok" else "-rejected") + ("-empty" if not terms_of(o) else ct),
                     nontrivial=nt and st == "ok")
     if kind == "hconj":
-        st, out = outcome(lambda: hermitian_conjugated(to_py(o)))
+        pyop = arg(to_py(o))
+        st, out = outcome(lambda: hermitian_conjugated(pyop))
         if st == "ok":
             res = from_py(out)
             n = max(width(o), width(res))
@@ -429,7 +517,8 @@ def run_case_(inp):
     if kind == "isherm":
         if inp["simplify"] and o["k"] == "S":
             o = from_py(to_py(o).simplify())            # keeps the numeric types simplify returned
-        st, out = outcome(lambda: is_hermitian(to_py(o)))
+        pyop = arg(to_py(o))
+        st, out = outcome(lambda: is_hermitian(pyop))
         if st != "ok":
             c64 = o["k"] == "S" and any(t["c"][3] == "npcomplex64" for t in o["terms"])
             if c64 and out == "TypeError":              # F41: PauliTerm.__hash__ cannot round a numpy.complex64
@@ -447,7 +536,8 @@ def run_case_(inp):
                     kind=kind + ("-simplified" if simp else "-unsimplified") + ("-yes" if out else "-no") + ct, nontrivial=nontrivial(o))
     if kind == "reverse":
         n = inp["n"]
-        st, out = outcome(lambda: reverse_qubit_order(to_py(o), n))
+        pyop = arg(to_py(o))
+        st, out = outcome(lambda: reverse_qubit_order(pyop, n))
         w = width(o)
         neff = w if n is None else n
         if st == "ok":
@@ -469,7 +559,12 @@ def run_case_(inp):
         n, rev = inp["n"], inp["rev"]
         amps = [complex(Fraction(a[0], 2 ** a[2]), Fraction(a[1], 2 ** a[2])) for a in inp["amps"]]
         stt = inp.get("st", "list-complex")
-        st, out = outcome(lambda: get_expectation_value(to_py(o), Wavefunction(mk_state(inp["amps"], stt)), rev), timeout=30)
+        pyop = arg(to_py(o))
+        st, wf = outcome(lambda: Wavefunction(mk_state(inp["amps"], stt)))
+        if st != "ok":
+            return dict(chk=None, oracle_ok=False, oracle_msg=f"Wavefunction({mk_state(inp['amps'], stt)}) raised {wf}", kind=kind + "-state-rejected")
+        arg(wf)
+        st, out = outcome(lambda: get_expectation_value(pyop, wf, rev), timeout=30)
         w = width(o)
         v = np.array(amps, dtype=complex)
         if st == "ok":
@@ -494,8 +589,8 @@ def case_frommat(inp):
     d = len(rows)
     square = all(len(r) == d for r in rows)
     mt = inp.get("mt", "list-mixed")
-    arg = mk_matrix(inp["rows"], mt)                  # list of rows or numpy array, of the numeric type named by mt
-    st, out = outcome(lambda: get_pauliop_from_matrix(arg), timeout=60)
+    marg = arg(mk_matrix(inp["rows"], mt))            # list of rows or numpy array, of the numeric type named by mt
+    st, out = outcome(lambda: get_pauliop_from_matrix(marg), timeout=60)
     pow2 = d > 0 and d & (d - 1) == 0
     sig = None
     if st == "ok":
